@@ -29,6 +29,8 @@ QuickPloidies == <<2, 2>>
 TetraPloidies == <<4, 2>>
 HaploDiploid == <<1, 2>>
 TwoModes == {"none", "ACPU"}
+OneMode == {"ACPU"}
+QuickModes == {"none", "ACPU", "AFP", "AFPM"}
 TetraModes == {"none", "ACP", "AFPM"}
 AllModes == {"none", "ACP", "ACPU", "AFP", "AFPM"}
 
